@@ -86,10 +86,19 @@ def gen(rng, tier, k):
         lists, total = enum3_slice(k)
         return dict(cls="enum_half_beat_3", lists=lists, initial=initial)
     cls = rng.choice(["random_grid", "random_grid", "near_line", "near_line", "seated", "const_other_metronome",
-                      "mixed_metronome_seated", "long", "unsorted_direct"])
+                      "mixed_metronome_seated", "long", "unsorted_direct", "late_fine"])
     met = 4
     if cls == "const_other_metronome":
         met = rng.choice([3, 5, 7])
+    if cls == "late_fine":
+        # hundreds of measures in, changes a fine-grid step apart (times in the millions of ms: a relative tolerance is wide there)
+        m0 = rng.choice([300, 400, 650, 900, 1500])
+        chs = [[0, "0/1", gen_bpm(rng), 4], [m0, "0/1", gen_bpm(rng), 4]]
+        b = F(0)
+        for _ in range(rng.randint(1, 4)):
+            b += F(1, rng.choice([64, 48, 32, 16, 96]))
+            chs.append([m0, fs(b), gen_bpm(rng), 4])
+        return dict(cls=cls, lists=[chs], initial=initial)
     n = rng.randint(2, 8) if cls != "long" else rng.randint(9, 20)
     chs = [[0, "0/1", gen_bpm(rng), met if cls != "mixed_metronome_seated" else rng.randint(2, 7)]]
     m, b = 0, F(0)
